@@ -9,6 +9,25 @@ def focus(r, o):
         o["import_sign"] = r.choice(["IMPORT", "@i", "é"])
 
 
+def extra_cases(rng, quick):
+    """imports that follow rules which leave nothing in the normal output, paths that already look percent-encoded"""
+    out = []
+    base = {"class_prefix": "p", "class_prefix_sign": None, "rpx_ratio": 750, "import_sign": "IMPORT", "convert_host": True, "host_is": None}
+    firsts = [":host{color:red}", ":host(.a){color:red}", ":host .b{color:red}", "@import 'x.wxss';", "/* c */", "@charset \"utf-8\";", "@media x{:host{a:b}}",
+              ".a{}", "@layer a;"]
+    paths = ["./a%20b.wxss", "lib/100%2fzoom.wxss", "%", "%2", "%zz", "a%25b", "%E4%B8%AD", "a b", "*/", "é中😀", "'q'", "a\\\\b*?", "%41%42"]
+    for f in firsts:
+        for conv in (True, False):
+            out.append((dict(base, convert_host=conv), f + " @import './a.wxss'; .b{color:blue}"))
+            out.append((dict(base, convert_host=conv), f + " @import url(b.wxss) print;"))
+    for p_ in paths:
+        esc = p_.replace("'", "\\'")
+        out.append((dict(base), "@import '%s';" % esc))
+        out.append((dict(base), "@import url('%s') screen;" % esc))
+        out.append((dict(base, import_sign=None), "@import '%s';" % esc))
+    return out
+
+
 def run(chk):
     chk.rule = ("generated stylesheets with @import in string / url() / url(\"\") form, any Unicode path, layer()/supports()/media conditions, "
                 "at every position x option sets; (1) model vs implementation; (2) oracle: placeholder comment decodes to the original path, "
@@ -17,7 +36,7 @@ def run(chk):
     chk.assumptions = ["decode_encode: percent-decoding the placeholder of ANY byte string returns it; encoded_has_no_comment_end: the encoded "
                        "path cannot close the comment; the byte table (isUnreserved) is extracted from the source each run; PARTIAL: the "
                        "wrapper blocks (importRule) are tied by correspondence + oracle"]
-    csscheck.run_property(chk, "C18", "GE.Thm.C18", THEOREMS, 700, 12000, focus=focus,
+    csscheck.run_property(chk, "C18", "GE.Thm.C18", THEOREMS, 700, 12000, focus=focus, extra_cases=extra_cases,
                           nontrivial=lambda o, css, res: "@import" in css.lower())
 
 
